@@ -2,16 +2,20 @@
    An oracle failure inside a window is reported with the kind of the finding instead of the
    oracle's kind; everything else stays a violation.  The windows are evaluated at the reload
    that causes the failure, on the implementation's state before (s) and after (s') that
-   UpdateConfig call, and the verdict is remembered for the (who, queue) pair until the failure
-   disappears:
+   UpdateConfig call, and the verdict is remembered (taint) for as long as the effect lasts:
      kind 20  C05-lost-named-limit   a named limit of the new configuration is missing because a
               limit of the same user/group on an ancestor queue was dropped by the same reload
-              and the tracker below that ancestor ran no application (unlink removes it);
+              and the trackers below that ancestor could be unlinked; remembered per
+              (who, queue) until the next reload changes the limit in force or the expected one;
      kind 14  C05-group-reset-usage  group usage differs from the live allocations after a
               reload dropped a limit of that group (usage and application links are wiped,
-              also for applications that are still running);
+              also for applications that are still running): the group stays tainted; an
+              application unlinked while holding resources stays tainted while it holds them,
+              and taints the group it is linked to next;
      kind 17  C05-reload-order       the outcome of a reload depends on the Go map iteration
-              order of the group reset phase. *)
+              order of the group reset phase (computed in Oracles/UgmCheck.v).
+   The findings C05-mixed-case, C05-stale-wildcard and C05-reload-nil-user are repaired in /repo
+   (fix: commits); their pinned histories in corpus/ugm.json must pass without any window. *)
 From Coq Require Import List NArith ZArith Bool.
 From YK Require Import Base.Int64 Base.Res Ugm.Tracker Ugm.Manager Ugm.UgmSpec.
 Import ListNotations.
